@@ -18,3 +18,10 @@ package session
 //@
 //@ type Session
 //@   guarded[C20] Data by mu
+
+// C04 — a session id is the hex text of at least 128 bits freshly read from the system CSPRNG
+//@ func generateSessionID
+//@   before call crypto/rand.Read#1 assert[C04 at-least-128-bits-are-requested-from-the-system-csprng] len(arg0) >= 16
+//@   ensures[C04 the-id-is-the-hex-text-of-freshly-read-random-bytes] randreads == old(randreads) + 1 && len(lastrandbuf) >= 16 && same(lasthexsrc, lastrandbuf) && result == lasthex && len(result) >= 32
+//@ func NewSession
+//@   ensures[C04 a-new-session-carries-a-freshly-generated-id] result != nil && randreads == old(randreads) + 1 && result.ID == lasthex && len(result.ID) >= 32
